@@ -25,6 +25,7 @@ SCRIPTS = {
     # array-like operands through every operator
     "K": [("divarr",), ("enter", 0), ("mularr",), ("idivarr",), ("exit",), ("subarr",)],
     "L": [("mul0d",), ("enter", 0), ("imul0d",), ("exit",), ("mul0d",)],
+    "M": [("subzeros",), ("enter", 0), ("isubzeros",), ("exit",), ("addzeros",)],
 }
 
 
@@ -66,9 +67,11 @@ def _task(E, config, h_factory, script, vals, log):
             h = h_factory()
             r = E.attempt(lambda: h + np.asarray([1, 2]))
             log.append(("arith", "refused" if isinstance(r, Raised) else "accepted"))
-        elif op in ("divarr", "mularr", "subarr", "idivarr", "mul0d", "imul0d"):
+        elif op in ("divarr", "mularr", "subarr", "idivarr", "mul0d", "imul0d", "subzeros", "addzeros", "isubzeros"):
             h = h_factory()
             arr = np.asarray([1, 2]) if op not in ("mul0d", "imul0d") else np.asarray(2)    # a 0-d array is an array-like operand, not a scalar
+            if op in ("subzeros", "addzeros", "isubzeros"):
+                arr = np.zeros(2)       # an all-zero array is still an array-like operand
 
             def run_arr():
                 if op == "divarr":
@@ -79,8 +82,14 @@ def _task(E, config, h_factory, script, vals, log):
                     g0 = h
                     g0 *= arr
                     return g0
-                if op == "subarr":
+                if op in ("subarr", "subzeros"):
                     return h - arr
+                if op == "addzeros":
+                    return h + arr
+                if op == "isubzeros":
+                    gz = h
+                    gz -= arr
+                    return gz
                 g = h
                 g /= arr
                 return g
@@ -139,12 +148,12 @@ class C19Schedules(Harness):
     bounds_doc = "2 tasks (quick) / 3 tasks with scripts of 4..7 steps from {enter(v), exit, exit-by-exception, assignment, read, array arithmetic, negative factor} incl. nesting; the values v, the main context's value and the environment default are symbolic / enumerated; the schedule (which task takes the next step) is a symbolic integer sequence forked over all interleavings"
 
     def instances(self, tier):
-        pairs = [("A", "B"), ("C", "D"), ("E", "A"), ("B", "C"), ("F", "G"), ("K", "I"), ("L", "I")] if tier == "quick" else list(itertools.combinations_with_replacement("ABCDE", 2)) + [("F", "G"), ("F", "B"), ("G", "E"), ("F", "F"), ("K", "I"), ("K", "B"), ("L", "I"), ("L", "G")]
+        pairs = [("A", "B"), ("C", "D"), ("E", "A"), ("B", "C"), ("F", "G"), ("K", "I"), ("L", "I"), ("M", "I")] if tier == "quick" else list(itertools.combinations_with_replacement("ABCDE", 2)) + [("F", "G"), ("F", "B"), ("G", "E"), ("F", "F"), ("K", "I"), ("K", "B"), ("L", "I"), ("L", "G"), ("M", "I")]
         for a, b in pairs:
             for kinds in (("copy", "copy"), ("copy", "fresh"), ("fresh", "fresh")):
                 if tier == "quick" and kinds == ("fresh", "fresh") and (a, b) != ("A", "B"):
                     continue
-                if tier == "quick" and (a, b) in (("F", "G"), ("K", "I"), ("L", "I")) and kinds != ("copy", "fresh"):
+                if tier == "quick" and (a, b) in (("F", "G"), ("K", "I"), ("L", "I"), ("M", "I")) and kinds != ("copy", "fresh"):
                     continue
                 yield f"sched-{a}{b}-{kinds[0]}-{kinds[1]}", dict(scripts=[a, b], kinds=list(kinds), env="unset")
         if tier != "quick":
@@ -249,7 +258,7 @@ class C19Schedules(Harness):
                     yield f"refused_operation_stores_nothing_negative[{t}][{k}]", entry[2] is True
                 if op == "read":
                     yield f"read[{t}][{k}]", cx.b(got) == ref[k]
-                elif op in ("arith", "divarr", "mularr", "subarr", "idivarr", "mul0d", "imul0d"):
+                elif op in ("arith", "divarr", "mularr", "subarr", "idivarr", "mul0d", "imul0d", "subzeros", "addzeros", "isubzeros"):
                     yield f"array_operand[{t}][{k}]", z3.BoolVal(got == "accepted") == ref[k]
                 elif op in ("neg", "addneg", "iaddneg", "subover", "setneg"):
                     yield f"negative_content[{t}][{k}]", z3.BoolVal(got == "accepted") == ref[k]
